@@ -1120,8 +1120,11 @@ def run_test(ctx: FunctionContext) -> TestResult:
             )
             try:
                 solver_output = solve_low_level(path_ctx)
-            except ShutdownError:
-                # early exit was triggered while this path was being confirmed
+            except Exception:
+                # early exit was triggered while this path was being confirmed:
+                # the query was rejected (ShutdownError) or its process was killed in flight
+                if not ctx.solving_ctx.executor.is_shutdown():
+                    raise
                 if args.debug:
                     print("aborting path exploration, executor has been shutdown")
                 break
